@@ -1274,9 +1274,9 @@ def run_witnesses(bins):
 # ----------------------------------------------------------------------------- plugin
 class C12:
     id = 'C12'
-    props_files = ['SmoothProps/C12.lean']
-    props_module = 'SmoothProps.C12'
-    lean_targets = ['SmoothProps.C12']
+    props_files = ['SmoothProps/C12.lean', 'SmoothProps/SrcTieLogicC12.lean']
+    props_module = 'SmoothProps.C12All'
+    lean_targets = ['SmoothProps.C12All']
     rule = ('harness/spline.cpp: random op-sequence scripts on the real smooth::Spline<K,G>, G in SO3/SE2/SE3/Vector2d/double, '
             'K=1..5; 1..3 constructors (ctor_V, ctor_vs, ConstantVelocity, ConstantVelocityGoal, FixedCubic, empty) then 0..6 of '
             'concat_local/+=, concat_global (matching and mismatching joints), crop (ta/tb strata: first segment, later segment, '
